@@ -38,3 +38,11 @@ pub fn chance(u: &mut Unstructured, num: u8) -> bool {
 pub fn range(u: &mut Unstructured, lo: usize, hi: usize) -> usize {
     lo + pick(u, hi - lo + 1)
 }
+
+pub mod message;
+pub mod name;
+pub mod rdata;
+
+pub fn pickb(u: &mut Unstructured, s: &[u8]) -> u8 {
+    s[pick(u, s.len())]
+}
